@@ -591,15 +591,27 @@ def _array_comp_helper(a, b):
     return a, b
 
 
+def _comp_tolerances(units, args, kwargs):
+    # signature tail of np.isclose / np.allclose: (rtol, atol, equal_nan);
+    # an absolute tolerance with units is read in the unit being compared
+    if len(args) > 1 and hasattr(args[1], "units"):
+        args = (args[0], args[1].to_value(units)) + tuple(args[2:])
+    if hasattr(kwargs.get("atol"), "units"):
+        kwargs = dict(kwargs, atol=kwargs["atol"].to_value(units))
+    return args, kwargs
+
+
 @implements(np.isclose)
 def isclose(a, b, *args, **kwargs):
     a, b = _array_comp_helper(a, b)
+    args, kwargs = _comp_tolerances(getattr(a, "units", NULL_UNIT), args, kwargs)
     return np.isclose._implementation(np.asarray(a), np.asarray(b), *args, **kwargs)
 
 
 @implements(np.allclose)
 def allclose(a, b, *args, **kwargs):
     a, b = _array_comp_helper(a, b)
+    args, kwargs = _comp_tolerances(getattr(a, "units", NULL_UNIT), args, kwargs)
     return np.allclose._implementation(np.asarray(a), np.asarray(b), *args, **kwargs)
 
 
